@@ -46,7 +46,7 @@ def plans_for(tier, rng):
         for ident in idents:
             if f.get("kind") == "other_cert" and f["other"] == ident:
                 continue
-            for rep in range(2 if tier == "quick" else 8):
+            for rep in range(2 if tier == "quick" else 24):
                 p = base_plan(cfgs, k, ident, f)
                 p["id"] = "cat%d" % k
                 plans.append(p); k += 1
